@@ -188,7 +188,11 @@ func Splice(s, tok string) string {
 
 // REG is the "regular text" alphabet of the quantifiers: non-empty valid
 // UTF-8, no marker runes, newlines interior and isolated.
-var REG = []string{"a", "x: y", "p: ", "100% %d %s", "ü \"q\" 'r'", "l1\nl2"}
+var REG = []string{"a", "x: y", "p: ", "100% %d %s", "ü \"q\" 'r'", "l1\nl2", "q:", "r "}
+
+// REGE is REG plus the empty string: for the properties whose
+// quantifier does not exclude empty messages.
+var REGE = append(append([]string{}, REG...), "")
 
 // HOSTILE adds the strings the redaction properties quantify over.
 var HOSTILE = append(append([]string{}, REG...),
